@@ -1221,9 +1221,13 @@ class Monitor:
                 import shutil
                 shutil.rmtree(home, ignore_errors=True)
         else:
+            via_env = self.spec.get('via_env') or []
             for i, d in enumerate(self.spec['T']):
                 t_start = self.env.now
-                self.sys.simulate(d, print_summary=False)
+                if i > 0 and i in via_env:
+                    self.env.run(d)         # the environment is public: a stretch may be run on it directly
+                else:
+                    self.sys.simulate(d, print_summary=False)
                 if 'head' in self.on and self.env.now != t_start + d:
                     self.bad('C01.run', f'simulate({d}) started at {t_start} ended with the clock at {self.env.now}, '
                              f'expected {t_start + d}')
